@@ -110,7 +110,7 @@ pub fn run(_args: &[String]) -> i32 {
     let texts = [
         "Migros", "Coop  City", " leading and trailing ", "semi;colon", "paren (x) paren", "(all in parens)", "equals = sign", "at @ sign", "star * mark", "* starts with star", "! bang",
         "tab\there", "2024/01/01 looks like a date", "日本語 の 店", "quote \"q\"", "colon: value", ":tag:", "two\nlines", "ends with backslash\\", "  ", "#hash", "%percent", "a\r\nb",
-        "A  1000 CHF", "x\n    Expenses:Evil  1,000,000 CHF",
+        "A  1000 CHF", "x\n    Expenses:Evil  1,000,000 CHF", "old\rmac", "cr\r", "\rlead", "form\u{c}feed", "nbsp\u{a0}x", "line\u{2028}sep",
     ];
     let cfg = "path: gen\nencoding: UTF-8\naccount: Assets:Bank\naccount_type: asset\noperator: The Bank\ncommodity: CHF\nformat:\n  date: \"%Y-%m-%d\"\n  commodity:\n    CHF:\n      precision: 2\n  fields:\n    date: Date\n    payee: Text\n    note: Note\n    amount: Amount\n    balance: Balance\n    charge: Charge\nrewrite:\n  - matcher:\n      payee: \"(?P<code>[0-9]+) (?P<payee>.*)\"\n    account: Expenses:Coded\n";
     for (i, t) in texts.iter().enumerate() {
